@@ -216,6 +216,16 @@ class Gen:
             p["classes"].append(f)
             self.register(name + "." + fn, "function")
             funcs.append(name + "." + fn)
+            if r.random() < 0.6:
+                # a function that calls the other function (both must come along in every flat model)
+                gn = self.fresh("g")
+                gf = new_cls(gn, "function")
+                gf["comps"] = [dict(name="u", text="input Real u;"), dict(name="y", text="output Real y;")]
+                gf["algo"] = ["y := %s.%s(u) + %s;" % (name, fn, self.num())]
+                p["classes"].append(gf)
+                self.register(name + "." + gn, "function")
+                funcs.append(name + "." + gn)
+                funcs.append(name + "." + gn)
         for _ in range(r.randint(1, 2)):
             mn = self.fresh("Leaf")
             full = name + "." + mn
@@ -319,7 +329,7 @@ class Gen:
                 q = r.random()
                 if q < 0.2:
                     c["eqs"].append("der(%s) = %s;" % (l, self.expr(allr)))
-                elif q < 0.35 and pk["funcs"]:
+                elif q < 0.45 and pk["funcs"]:
                     c["eqs"].append("%s = %s(%s);" % (l, r.choice(pk["funcs"]), self.expr(allr)))
                 else:
                     c["eqs"].append("%s = %s;" % (l, self.expr(allr)))
